@@ -20,6 +20,7 @@ const QUARANTINE_CAP: u64 = 256 << 20;
 
 #[cold]
 fn in_handler_alloc(what: &str, size: usize) {
+    let _g = sim::ShimGuard::new();
     HANDLER_ALLOCS.fetch_add(1, Ordering::Relaxed);
     sim::report(
         "C03",
